@@ -44,6 +44,10 @@ theorem set_val {l : List α} {i : Nat} {x : α} {s : String} (h : i < l.length)
 theorem cast_of_lt {w x : Nat} (h : x < 2 ^ w) : RustSem.cast w x = x := Nat.mod_eq_of_lt h
 
 theorem Exec.bind_val' (a : α) (f : α → Exec ε ρ β) : (Exec.val a).bind f = f a := rfl
+/-- skip a statement that is known to evaluate to `a` (stated for the whole statement, so that `rw` can pick it
+    without spelling out its text) -/
+theorem Exec.bind_skip (x : Exec ε ρ α) (f : α → Exec ε ρ β) (a : α) (h : x = .val a) : x.bind f = f a := by
+  rw [h]; rfl
 theorem Exec.bind_ret' (r : ρ) (f : α → Exec ε ρ β) : (Exec.ret r : Exec ε ρ α).bind f = .ret r := rfl
 theorem Exec.bind_err' (e : ε) (f : α → Exec ε ρ β) : (Exec.err e : Exec ε ρ α).bind f = .err e := rfl
 theorem Exec.bind_panic' (s : String) (f : α → Exec ε ρ β) : (Exec.panic s : Exec ε ρ α).bind f = .panic s := rfl
